@@ -196,6 +196,9 @@ pub fn build(p: Pipe) -> Rig {
         if n > 1 {
           e::fail("finalize_threads/ran-twice", || "finalizer invoked a second time (racing terminate / unsubscribe)".to_string());
         }
+        // the subscription is over: whatever another thread emits from now on must not arrive
+        probe.forbid("finalize_threads/delivery-after-finalizer");
+        world::maybe_preempt();
       };
       keep!(cat::hot_tagged_t(0).finalize_threads(fin).actual_subscribe(probe));
       Rig { feed: feed_tags(vec![0]), ninputs: 1, unsub, subscribe: None, probes: vec![probe], drain: nodrain, peek: None, extra: vec![] }
